@@ -22,6 +22,9 @@ import (
 //	    index the cache as [axisType][axisIdx].
 func c05ProofsCache(c *Check, rule string) {
 	p := c.P
+	if rule == "R5.4" {
+		defer c05RelativeLinks(c)
+	}
 	c.Rule(rule, "proofs-cache entries always hold the inner accessor's own half for their key (provenance, completeness, key agreement)")
 	get := p.Func("share/eds", "proofsCache", "getAxisFromCache")
 	put := p.Func("share/eds", "proofsCache", "storeAxisInCache")
@@ -177,4 +180,39 @@ func ownerName(fa *ssa.FieldAddr) string {
 		return n.Obj().Name()
 	}
 	return ""
+}
+
+// c05RelativeLinks (R5.7): the height entry of the empty block is a symlink, and its
+// target is relative to the link's own directory (built without Store.basepath): a
+// store opened under a relative path, or moved, must still resolve it. Hard links
+// (all other blocks) have no such constraint.
+func c05RelativeLinks(c *Check) {
+	p := c.P
+	c.Rule("R5.7", "symlink targets in the store do not contain the store's base path (relocatable, valid under a relative store path)")
+	n := 0
+	for _, f := range p.FuncsOfPkg("store") {
+		for _, b := range f.Blocks {
+			for _, ins := range b.Instrs {
+				g, ok := ins.(*ssa.Call)
+				if !ok {
+					continue
+				}
+				o := calleeObj(&g.Call)
+				isSym := o != nil && ((o.Name() == "Symlink" && pkgPathOf(o) == "os") || (o.Name() == "symlink" && pkgPathOf(o) == modPath+"/store"))
+				if !isSym || len(g.Call.Args) < 2 {
+					continue
+				}
+				// skip the wrapper's own body (its parameters)
+				if _, isParam := g.Call.Args[0].(*ssa.Parameter); isParam {
+					continue
+				}
+				n++
+				c.SawFunc(f)
+				sl := backSlice(g.Call.Args[0], SliceOpt{CallArgs: true, CalleeDepth: 2, P: p})
+				c.Ob("R5.7", "symlink target@"+fnName(f), !sl.HasFieldNamed("Store", "basepath"), p.Pos(g.Pos()),
+					"the link target is built without Store.basepath (relative to the heights directory)")
+			}
+		}
+	}
+	c.Floor("R5.7", "symlink creations in package store", n, 1)
 }
